@@ -327,7 +327,7 @@ func plant(rt *rapid.T, g *gen.G, p *gen.Program, kind string) (desc string, pla
 		j.Kind = rapid.SampledFrom([]string{"outer", "left", "innerr", "Inner", "fullouter", "rightouter", "anti"}).Draw(rt, "badkind")
 		return "unknown join kind " + j.Kind, "join", true
 	case "rowcount-float", "rowcount-string":
-		var bad gen.Expr = &gen.Num{Text: rapid.SampledFrom([]string{"1.5", ".5", "1e3", "2.", "0.0"}).Draw(rt, "floatcount")}
+		var bad gen.Expr = &gen.Num{Text: rapid.SampledFrom([]string{"1.5", ".5", "1e3", "2.", "0.0", "0E5", "00E3", "0E+2", "0e0", "1E3", "0.", "0E-1"}).Draw(rt, "floatcount")}
 		if kind == "rowcount-string" {
 			bad = g.StrLit()
 		}
